@@ -264,7 +264,9 @@ Print Assumptions C05_nonvacuous.
      the item's own or the next of the counter - drawn before anything else -, does the item carry its own attribute dict), the item
      `if idx in self._edge.keys(): warn(...) else: <statements>` as a guarded body, `format2 or format4` as the flag "the id is the
      caller's", the two attribute updates in their order (the call's **attr first, the item's dict second);
-   - the guard of remove_nodes_from, whose item then calls the translated remove_node.
+   - the guard of remove_nodes_from, whose item then calls the translated remove_node;
+   - the item of add_nodes_from (the decoding of the item into a node and an optional dict is accepted verbatim; `newnode` is read as the
+     condition it abbreviates, `newdict` is the call's attributes or a copy of them updated with the item's dict).
    Run item by item they are the model's add_edges_from in all five formats (for every **attr with distinct keys - it is a Python dict)
    and remove_nodes_from.  What stays outside: the detection of the format from the first element, the iterator protocol, and the
    decoding `members = list(members); member_set = set(members)` (the interpreter is handed both) *)
@@ -277,9 +279,11 @@ Theorem C05_bulk_calls_are_source :
      (forall l, run_bulk src_bulk_formats 2 src_bulk_item_guards src_bulk_item a (map (fun me => (fst me, LNone, snd me)) l) s = add_edges_from (EB3 l) a s) /\
      (forall l, run_bulk src_bulk_formats 3 src_bulk_item_guards src_bulk_item a l s = add_edges_from (EB4 l) a s)) /\
   (forall strong re ns s, Inv s ->
-     run_node_items src_remove_nodes_from_guards src_remove_node ns [strong; re] s = remove_nodes_from ns strong re s).
+     run_node_items src_remove_nodes_from_guards src_remove_node ns [strong; re] s = remove_nodes_from ns strong re s) /\
+  (forall items a s, Inv s -> run_node_attr_items src_add_nodes_from_item items a s = add_nodes_from items a s).
 Proof.
-  split; [exact add_edges_from_dict_is_source|]. split; [exact add_edges_from_items_is_source|exact remove_nodes_from_is_source].
+  split; [exact add_edges_from_dict_is_source|]. split; [exact add_edges_from_items_is_source|].
+  split; [exact remove_nodes_from_is_source|exact add_nodes_from_is_source].
 Qed.
 Print Assumptions C05_bulk_calls_are_source.
 
@@ -297,6 +301,10 @@ Theorem C05_directed_bulk_call_is_source :
      (forall l, run_dbulk dsrc_bulk_formats 2 dsrc_bulk_item_guards dsrc_bulk_item a (map (fun m => (fst (fst m), snd (fst m), LNone, snd m)) l) d = d_add_edges_from (DB3 l) a d) /\
      (forall l, run_dbulk dsrc_bulk_formats 3 dsrc_bulk_item_guards dsrc_bulk_item a l d = d_add_edges_from (DB4 l) a d)) /\
   (forall strong re ns d, DInv d ->
-     run_dnode_items dsrc_remove_nodes_from_guards dsrc_remove_node ns [strong; re] d = d_remove_nodes_from ns strong re d).
-Proof. split; [exact d_add_edges_from_dict_is_source|split; [exact d_add_edges_from_items_is_source|exact d_remove_nodes_from_is_source]]. Qed.
+     run_dnode_items dsrc_remove_nodes_from_guards dsrc_remove_node ns [strong; re] d = d_remove_nodes_from ns strong re d) /\
+  (forall items a d, DInv d -> run_dnode_attr_items dsrc_add_nodes_from_item items a d = d_add_nodes_from items a d).
+Proof.
+  split; [exact d_add_edges_from_dict_is_source|]. split; [exact d_add_edges_from_items_is_source|].
+  split; [exact d_remove_nodes_from_is_source|exact d_add_nodes_from_is_source].
+Qed.
 Print Assumptions C05_directed_bulk_call_is_source.
